@@ -2377,6 +2377,42 @@ def _item_of_cb(e):
     return ('cbarg',)
 
 
+def cursor_fold_iteration(how):
+    """fold of a borrowing (or draining) cursor iterator written by hand: per iteration the cursor advances over
+    exactly one element, front to back, and the stated projection of that element goes to the closure once"""
+    subs = {'pair': ((0,), (1,)), 'key': ((0,),), 'value': ((1,),),
+            'owned-pair': ((0,), (1,)), 'owned-key': ((0,),)}[how]
+    owned = how.startswith('owned')
+
+    def mk(props):
+        def hook(E, body, key, st, seg, depth=0):
+            roles = _roles(E)
+            advs = [e for e in seg if e[0] == 'adv' and e[1] in roles]
+            if not roles or not advs:
+                return
+            it = Iteration(E, st, seg)
+            nm = body.name
+            z = st.zone
+            E.iter_classes['folded'] += 1
+            mid, idx = advs[0][1], advs[0][2]
+            it_req(E, props, 'ONCE', len(advs) == 1, nm + ':fold', 'the cursor must advance over exactly one element per round', it)
+            it_req(E, props, 'ORDER', not (len(advs[0]) > 3 and advs[0][3] == 'back'), nm + ':fold',
+                   'fold must visit the elements in the order in which next() yields them (front to back)', it)
+            calls = [e for e in seg if e[0] == 'user' and (e[1].endswith('::call_mut') or e[1].endswith('::call_once')
+                                                          or e[1].endswith('::call') or e[1] == 'call')]
+            ok = len(calls) == 1
+            if ok and owned:
+                reads = [e for e in seg if e[0] == 'read' and e[1] == mid]
+                ok = len(reads) == 1 and all(E.tag_mentions(calls[0][2], reads[0][3][sub[0]]) for sub in subs)
+            elif ok:
+                ok = all(mentions_z(z, calls[0][2], ('slot', mid, idx, sub)) or mentions_z(z, calls[0][2], ('pair', mid, idx, sub))
+                         for sub in subs)
+            it_req(E, props, 'POL', ok, nm + ':fold',
+                   'the element the cursor passed over (its %s) must be handed to the closure, exactly once' % how, it)
+        return hook
+    return mk
+
+
 def pop_fold_iteration(props):
     """fold of a consuming (pop) iterator written by hand: per iteration exactly the last live element is moved
     out (len goes down by one) and handed to the closure, once"""
@@ -2706,6 +2742,12 @@ for _path in (KEYS, VALUES, VALUESMUT, SETITER):
     OPTIONAL.add((_path, IT, 'count'))
 for _path in (DIFF, DIFFREF, INTER):
     OPTIONAL.add((_path, 'Iterator', 'count'))
+for _path, _how in ((ITER, 'pair'), (ITERMUT, 'pair'), (KEYS, 'key'), (VALUES, 'value'), (VALUESMUT, 'value'),
+                    (SETITER, 'key')):
+    HANDLERS[(_path, IT, 'fold')] = ({'C09'}, h_merge_fold)
+    ITER_HOOKS[(_path, IT, 'fold')] = ({'C09'}, cursor_fold_iteration(_how), {'folded'})
+    CLASSES[(_path, IT, 'fold')] = {'folded-all'}
+    OPTIONAL.add((_path, IT, 'fold'))
 for _path in (ITER, KEYS, VALUES, SETITER):
     HANDLERS[(_path, 'Clone', 'clone')] = ({'C09'}, h_iter_clone)
 for _path, _how in ((DRAIN, 'owned-pair'), (SETDRAIN, 'owned-key')):
@@ -2718,6 +2760,16 @@ for _path, _how in ((INTOITER, 'owned-pair'), (INTOKEYS, 'owned-key'), (INTOVALU
     HANDLERS[(_path, IT, 'size_hint')] = ({'C10'}, h_pop_count('size_hint'))
     HANDLERS[(_path, ESI, 'len')] = ({'C10'}, h_pop_count('len'))
 HANDLERS[(INTOITER, IT, 'count')] = ({'C10'}, h_pop_count('count'))
+for _path, _how in ((DRAIN, 'owned-pair'), (SETDRAIN, 'owned-key')):
+    HANDLERS[(_path, IT, 'fold')] = ({'C10'}, h_merge_fold)
+    ITER_HOOKS[(_path, IT, 'fold')] = ({'C10'}, cursor_fold_iteration(_how), {'folded'})
+    CLASSES[(_path, IT, 'fold')] = {'folded-all'}
+    OPTIONAL.add((_path, IT, 'fold'))
+    HANDLERS[(_path, IT, 'count')] = ({'C10'}, h_cursor_count('count'))
+    OPTIONAL.add((_path, IT, 'count'))
+for _path in (INTOKEYS, INTOVALUES, SETINTOITER):
+    HANDLERS[(_path, IT, 'count')] = ({'C10'}, h_pop_count('count'))
+    OPTIONAL.add((_path, IT, 'count'))
 for _path in (INTOITER, INTOKEYS, INTOVALUES, SETINTOITER):
     HANDLERS[(_path, IT, 'fold')] = ({'C10'}, h_pop_fold)
     ITER_HOOKS[(_path, IT, 'fold')] = ({'C10'}, pop_fold_iteration, {'folded'})
